@@ -1245,18 +1245,29 @@ func (r *Raft) sendRequestVoteToPeers() {
 	// Send RequestVote RPCs to all voting members of the cluster.
 	votesRecieved := 1
 	isPrevote := r.state == PreCandidate
+	term := r.currentTerm
 	for id, address := range r.configuration.Members {
 		if id != r.id && r.isVoter(id) {
-			go r.sendRequestVote(id, address, &votesRecieved, isPrevote)
+			go r.sendRequestVote(id, address, &votesRecieved, isPrevote, term)
 		}
 	}
 }
 
 // sendRequestVote sends a RequestVote RPC to the node with the provided
-// ID and address if it is a voting member.
-func (r *Raft) sendRequestVote(id string, address string, votes *int, prevote bool) {
+// ID and address if it is a voting member. The term is the term in which
+// the election round this request belongs to was started.
+func (r *Raft) sendRequestVote(id string, address string, votes *int, prevote bool, term uint64) {
 	r.mu.Lock()
 	defer r.mu.Unlock()
+
+	// The request is obsolete if this node has moved to another term or is no
+	// longer campaigning in the round that spawned it. Sending it anyway would
+	// ask for votes in a term in which this node never voted for itself and
+	// would count the replies towards the votes of an older round.
+	if r.currentTerm != term || (prevote && r.state != PreCandidate) ||
+		(!prevote && r.state != Candidate) {
+		return
+	}
 
 	// Do not send requests to non-voting members and only send
 	// requests if this node is a voting member of the cluster.
